@@ -35,9 +35,41 @@ class SpecAbstract(JsonRpcError):
     """an application's abstract error base: no code, never documented as an error of its own"""
 
 
-ERRORS = {'A': SpecErrA, 'B': SpecErrB, 'C': SpecErrC}
+# refinements of one generic application error: they INHERIT its code and differ in class name and / or message
+class SpecNotFound(JsonRpcError):
+    code = 72004
+    message = 'spec not found'
+
+
+class SpecUserNotFound(SpecNotFound):
+    message = 'spec user not found'
+
+
+class SpecPostNotFound(SpecNotFound):
+    message = 'spec post not found'
+
+
+class SpecDenied(JsonRpcError):
+    code = 72005
+    message = 'spec denied'
+
+
+class SpecReadDenied(SpecDenied):
+    message = 'spec read denied'
+
+
+class SpecWriteDenied(SpecDenied):
+    """a refinement that overrides nothing but the class name"""
+
+
+ERRORS = {'A': SpecErrA, 'B': SpecErrB, 'C': SpecErrC, 'NF': SpecNotFound, 'NFu': SpecUserNotFound, 'NFp': SpecPostNotFound,
+          'D': SpecDenied, 'Dr': SpecReadDenied, 'Dw': SpecWriteDenied}
+# error classes that share one code (keys of ERRORS), and for each its next sibling
+SAME_CODE_FAMILIES = [['NF', 'NFu', 'NFp'], ['D', 'Dr', 'Dw']]
+SIBLING = {k: fam[(i + 1) % len(fam)] for fam in SAME_CODE_FAMILIES for i, k in enumerate(fam)}
 # names a docstring may mention in :raises: although they are no documentable errors (abstract bases, unknown names)
-RAISES_NAMES = {'A': 'SpecErrA', 'B': 'SpecErrB', 'C': 'SpecErrC', 'abstract': 'SpecAbstract', 'client': 'ClientError', 'unknown': 'NoSuchError'}
+RAISES_NAMES = {'A': 'SpecErrA', 'B': 'SpecErrB', 'C': 'SpecErrC', 'NFu': 'SpecUserNotFound', 'NFp': 'SpecPostNotFound', 'Dw': 'SpecWriteDenied',
+                'abstract': 'SpecAbstract', 'client': 'ClientError', 'unknown': 'NoSuchError'}
 
 
 class Colour(enum.Enum):
@@ -261,9 +293,12 @@ def make_extractors(stack: str, exclude_name: Optional[str] = None, pd_config: O
     return table[stack]
 
 
-def make_spec(kind: str, stack: str, shared: Dict[str, Any], status_map: bool = False, exclude_name: Optional[str] = None):
-    """kind: 'oas31' | 'oas30' | 'openrpc'"""
-    exs = make_extractors(stack, exclude_name, shared.get('pydantic_config'))
+def make_spec(kind: str, stack: str, shared: Dict[str, Any], status_map: bool = False, exclude_name: Optional[str] = None,
+              extractor_objects: Optional[List[Any]] = None):
+    """kind: 'oas31' | 'oas30' | 'openrpc'; extractor_objects: the extractor objects of an earlier specification object
+    (an application may hand one extractor to several specification objects); they are left in shared['extractor_objects']"""
+    exs = extractor_objects or make_extractors(stack, exclude_name, shared.get('pydantic_config'))
+    shared['extractor_objects'] = exs
     if kind == 'openrpc':
         info = openrpc.Info(title='t', version='1.0', description='d')
         shared['info'] = info
@@ -278,6 +313,6 @@ def make_spec(kind: str, stack: str, shared: Dict[str, Any], status_map: bool = 
     return openapi.OpenAPI(
         info=info, tags=tags, servers=servers, openapi='3.1.0' if kind == 'oas31' else '3.0.3',
         security_schemes={'basicAuth': openapi.SecurityScheme(type=openapi.SecuritySchemeType.HTTP, scheme='basic')},
-        error_http_status_map={72001: 409, 72003: 404} if status_map else {},
+        error_http_status_map={72001: 409, 72003: 404, 72004: 404} if status_map else {},
         **ex_kw,
     )
